@@ -21,7 +21,7 @@ PROBES = {"C04": ["constructor_args_varied", "nested_param_set", "component_repl
                   "unknown_param_rejected", "clone_of_fitted", "not_fitted_calls_checked",
                   "fit_leaves_params_checked", "composite_depth2", "pickle_unfitted",
                   "ordered_set_params", "deep_names_checked", "params_after_update_checked",
-                  "second_fit_checked", "failed_fit_checked"]}
+                  "second_fit_checked", "failed_fit_checked", "failed_refit_checked"]}
 FAULT_KINDS = {"C04": ["clone_midway", "pickle_roundtrip", "set_params_midway"]}
 RULE = {"C04": (
     "for a seeded choice of estimator class (all 76 importable classes), constructor-argument "
@@ -71,6 +71,14 @@ def required_args(name, rng):
         ests = [("a", _tsf(2), [0]), ("b", _tsf(3, 2), [0])]
         if r < 0.4:
             ests.insert(rng.randrange(3), ("c", "drop", [0]))
+        if rng.random() < 0.4:
+            # a plain scikit-learn estimator as a component (a pipeline that tabularises first)
+            from sklearn.pipeline import make_pipeline
+            from sklearn.tree import DecisionTreeClassifier
+            from sktime.transformations.panel.reduce import Tabularizer
+            ests.insert(rng.randrange(len(ests) + 1),
+                        ("sk", make_pipeline(Tabularizer(), DecisionTreeClassifier(max_depth=2,
+                                                                                   random_state=1)), [0]))
         return {"estimators": ests}
     if name in ("EnsembleForecaster", "OnlineEnsembleForecaster"):
         ms = [("a", _naive()), ("b", _trend(degree=rng.choice([1, 2])))]
@@ -198,7 +206,7 @@ def generate(prop, rng, tier):
     n = rng.randint(3, 8)
     pool = ["get_params", "roundtrip_params", "set_flat", "set_unknown", "clone", "call_unfitted",
             "call_unfitted", "fit", "fit", "clone_fitted", "pickle", "set_nested", "replace_component",
-            "set_ordered", "update_fitted", "failing_fit"]
+            "set_ordered", "update_fitted", "failing_fit", "failing_refit"]
     for _ in range(n):
         ops.append(rng.choice(pool))
     return {"class": cls.__name__, "qual": q, "kind": kind, "ctor_seed": rng.randint(0, 10 ** 6),
@@ -690,6 +698,72 @@ def execute(prop, scen):
                     check_not_fitted(v, res, est, kind, data, NotFittedError, cloned=False)
                 else:
                     fitted = True   # (it could be fitted on two points after all)
+            elif op == "failing_refit":
+                # a fitted forecaster whose next (re)fit raises - directly, through update, or
+                # inside update_predict's moving-cutoff loop (a NaN the regressor rejects): the
+                # fit that raised must not leave the forecaster claiming to be fitted
+                if kind != "forecaster" or not fitted or name in NOT_FITTABLE:
+                    continue
+                how = rng.choice(["fit", "update", "update_predict"])
+                bad = data["y_new"].copy()
+                bad.iloc[len(bad) // 2] = np.nan
+                try:   # (a tuner with refit=False never answers predict: nothing to compare)
+                    est.predict(data["fh"])
+                except Exception:
+                    continue
+                # (observe the forecaster's own fit: only a call in which *that* raised is judged)
+                seen = {"raised": False, "calls": 0}
+                orig_fit = est.fit
+
+                def watched_fit(*a, _o=orig_fit, **k):
+                    seen["calls"] += 1
+                    seen["raised"] = True
+                    out = _o(*a, **k)
+                    seen["raised"] = False
+                    return out
+                est.fit = watched_fit
+                raised = False
+                try:
+                    if how == "fit":
+                        est.fit(data["y"].iloc[:2], fh=data["fh"])
+                    elif how == "update":
+                        est.update(bad, update_params=True)
+                    else:
+                        est.update_predict(bad, update_params=True)
+                except Exception:
+                    raised = True
+                finally:
+                    del est.fit
+                if raised and seen["raised"]:
+                    # The property does not say whether a failed re-fit keeps the previous
+                    # fitted state or discards it; it does tie the flag to the behaviour: an
+                    # estimator that reports is_fitted answers, one that does not raises
+                    # NotFittedError.
+                    res.probe("failed_refit_checked")
+                    if getattr(est, "is_fitted", False):
+                        try:
+                            est.predict(data["fh"])
+                        except NotFittedError:
+                            v("fitted_flag_after_failed_fit", "after a fit that raised (reached via %s "
+                              "on an already fitted object) is_fitted is True but predict raises "
+                              "NotFittedError" % how, how=how, refit=True)
+                            break
+                        except Exception:
+                            pass
+                        try:   # continue on a cleanly fitted object
+                            est.fit(data["y"], fh=data["fh"])
+                        except Exception:
+                            break
+                    else:
+                        check_not_fitted(v, res, est, kind, data, NotFittedError, cloned=False)
+                        fitted = False
+                elif raised:
+                    # the call failed elsewhere: whatever state it left is not judged here, and
+                    # the rest of the history continues on a freshly fitted object
+                    try:
+                        est.fit(data["y"], fh=data["fh"])
+                    except Exception:
+                        break
             elif op == "fit":
                 if name in NOT_FITTABLE:
                     continue
